@@ -48,6 +48,11 @@
 (*                     half-close does arrive (no timeout)                 *)
 (*   ClosedNotHanging  after y closed or refused, x sees eof or a reset    *)
 (*                     within the deadline (no timeout) - nothing more     *)
+(* Not a monitor of the property, but named so that it can be reported:    *)
+(*   StalledAfterClose a write of x blocks for good after y closed (x did  *)
+(*                     see its eof / reset; a direct connection would fail *)
+(*                     the write).  Tolerated unless the trace             *)
+(*                     specification is told otherwise.                    *)
 (***************************************************************************)
 EXTENDS Socks, TLC
 
@@ -70,7 +75,9 @@ Failing(s, x, e) ==
   IN  (IF e.ev = "recv" /\ ~(e.a = s.rcvd[x] /\ e.a <= e.b /\ e.b <= s.sent[y]) THEN {"Prefix"} ELSE {})
  \cup (IF e.ev \in {"bad", "extra"} THEN {"Prefix"} ELSE {})
  \cup (IF e.ev \in {"eof", "reset"} /\ ~s.abort /\ s.rcvd[x] # s.sent[y] THEN {"Complete"} ELSE {})
- \cup (IF e.ev = "timeout" /\ e.what = "write" THEN {"Complete"} ELSE {})
+      \* a write that makes no progress: while nobody aborted the octets are owed to a reader that is there; after an
+      \* abort the property promises nothing about writes (a direct connection would fail them), see StalledAfterClose
+ \cup (IF e.ev = "timeout" /\ e.what = "write" THEN (IF s.abort THEN {"StalledAfterClose"} ELSE {"Complete"}) ELSE {})
  \cup (IF e.ev = "eof" /\ ~(fin \/ s.abort) THEN {"HalfClose"} ELSE {})
  \cup (IF e.ev = "reset" /\ ~(gone \/ s.abort) THEN {"HalfClose"} ELSE {})
  \cup (IF e.ev = "timeout" /\ e.what = "eof" /\ ~gone THEN {"HalfClose"} ELSE {})
